@@ -102,7 +102,10 @@ fn edge_value(rng: &mut Rng) -> B32 {
             }
             b
         }
-        _ => rand_with_top_bit(rng, rng.below(256) as u32),
+        _ => {
+            let i = rng.below(256) as u32;
+            rand_with_top_bit(rng, i)
+        }
     }
 }
 
@@ -174,7 +177,8 @@ fn one_case(check: &Check, rng: &mut Rng) {
     } else {
         gen_key(rng, Some(a.raw()), check)
     };
-    let c = gen_key(rng, Some(if rng.bool() { a.raw() } else { b.raw() }), check);
+    let near_a = rng.bool();
+    let c = gen_key(rng, Some(if near_a { a.raw() } else { b.raw() }), check);
     let cx = Ctx { check, a: &a, b: &b, c: &c };
 
     let r = catch(|| {
@@ -299,7 +303,7 @@ pub fn run(args: &Args) -> i32 {
         "PRNG triples (a,b,c) of keys drawn from: hashed Key<PeerId>, hashed Key<Vec<u8>>, raw edge keys (0, 1, 2^k, 2^k-1, all-ones, two-bit) \
          and keys at an edge distance from a previous key; plus an edge distance D per case. Non-trivial = three pairwise different keys; distinct by key bytes",
     );
-    let n = args.extra.get("budget").map(|b| if b == "tiny" { 40 } else { 2_000 }).unwrap_or(args.tier.pick(30_000, 1_500_000));
+    let n = args.extra.get("budget").map(|b| if b == "tiny" { 40 } else { 2_000 }).unwrap_or(args.tier.pick(300_000, 12_000_000));
     vmon::par_cases(&check, n, args.threads, |_i, rng| one_case(&check, rng));
     check.note("exhaustive", json!(false));
     check.note("laws", json!(["identity", "value(xor)", "symmetry", "triangle", "order", "unidirectional", "for_distance inverse", "ilog2", "bucket index+range", "local key has no bucket"]));
